@@ -232,7 +232,7 @@ pub fn case_strategy(max_calls: usize) -> impl Strategy<Value = Case> {
 
 pub fn run(ctx: &Ctx, rep: &mut Report, replay: Option<&serde_json::Value>) {
     rep.rule("histories of 2..=10 (thorough 2..=30) Server::process_once calls over an engine without TALs, the data set of each call (<= 6 origins/router keys, 25 % repeats) carried by local exceptions, history-size in {1,2,10}; each call is forced (verif hook at the top / end of ValidationReport::process) to succeed (5/9) or to fail: retryable or fatal, before the run or after the complete run; `initial` mostly true for the first call only, sometimes elsewhere; before and after every failed call the observable state is captured: ready, session, serial, created, RTR notify state, full data set, answers to serial queries for every serial 0..=S+2 and wrap-around serials, /json status+ETag+Last-Modified+body, conditional /json with the pre-failure validators, /json-delta reset and delta documents; notifications: a receiver subscribed just before the failed call must stay empty, twin long-lived receivers must show the same pending state before and after; non-trivial = a failed call when serial >= 1; distinct by serialised case");
-    rep.assume("forced failures come from the verif hook in ValidationReport::process (Retry/Fatal before the engine run, RetryLate/FatalLate after the complete run); failures in the middle of a run with real store updates need the RPKI repository generator and are not produced here");
+    rep.assume("forced failures come from the verif hook in ValidationReport::process (Retry/Fatal before the engine run, RetryLate/FatalLate after the complete run); genuine engine failures are produced by the initial-run leg (module c33i) over generated RPKI repositories");
     rep.assume("last_update_start (shown by /status) legitimately changes when a run starts and is not part of the compared state");
     init_process();
     let env = Env::new(ctx.scratch());
@@ -243,10 +243,18 @@ pub fn run(ctx: &Ctx, rep: &mut Report, replay: Option<&serde_json::Value>) {
     let world = World { env: &env, http: &http, engine: &engine };
     let prop = |case: &Case, info: &mut CaseInfo| judge(&world, case, info);
     if let Some(v) = replay {
-        let t: Tagged<Case> = serde_json::from_value(v.clone()).expect("replay");
-        run_case(ctx, rep, &t.sub, &t.case, prop);
+        let t: Tagged<serde_json::Value> = serde_json::from_value(v.clone()).expect("replay");
+        if t.sub == "initial" {
+            crate::c33i::run(ctx, rep, replay);
+            return;
+        }
+        let case: Case = serde_json::from_value(t.case).expect("case");
+        run_case(ctx, rep, &t.sub, &case, prop);
         return;
     }
     run_prop(ctx, rep, "calls", ctx.tier.pick(15_000, 150_000), case_strategy(ctx.tier.pick(10, 30)), prop);
     clear_forced_outcomes();
+    if !rep.violated() {
+        crate::c33i::run(ctx, rep, None);
+    }
 }
